@@ -24,11 +24,15 @@ PLAN = dict(
                     "subst_sim; two refutation witnesses showing the precondition is necessary.  Correspondence: the Gallina models of "
                     "Prog::uniquify and Prog::focus agree with the Rust code on every case (panic messages included); on the Rust "
                     "output the executable property (uniquified_check, unique_check, output reads as FsProg) is evaluated for every "
-                    "input inside the precondition; a translation output outside the precondition is itself reported.",
+                    "input inside the precondition, and the observable behaviour (prints in order, exit value) of the input on the Core "
+                    "abstract machine is compared with that of the focused Rust output; a translation output outside the precondition "
+                    "is itself reported.",
         assumptions=[
             "usize overflow of max_id is not modelled (ids are unbounded N)",
-            "semantic preservation (run_core before = after, order of effects) is stated but not yet checked: the Core abstract "
-            "machine Sem/CoreSem.v is not in the tree yet (hook sem_hook in Model/RunFocus.v)",
+            "semantic preservation and order of effects are CHECKED on every case (run_core on the input vs run_fs on the Rust "
+            "output, two argument tuples per program, source fuel 20000 / target fuel 400000 transitions; cases whose source run "
+            "is stuck or out of fuel give no verdict) but proved only for the fragment stated in Props/C03.v",
+            "the reference machine Sem/CoreSem.v (branch c02) fixes the evaluation order of unfocused arguments",
             "well-typedness enters only through the shape predicate focus_wf (no Literal/Op consumer, no xtor-xtor or op-destructor cut)",
         ],
     )
